@@ -16,6 +16,8 @@ from .. import audiocommon as AC
 from .. import pipeline as P
 from ..ctx import stable_hash
 
+from ..ctx import scratch_dir  # noqa: E402
+
 ID = "C14"
 LEVEL = "fault_enumeration"
 TIERS = {"quick": {"shards": 16, "budget_s": 120, "streams": 2, "max_blocks": 12, "schedules_per_point": 3, "line_runs": 12, "sigint": 4, "systematic_pipelines": 1, "systematic_deviations": 1, "fault_runs": 8, "lagging_saver_runs": 4},
@@ -498,7 +500,7 @@ def check_sigint(ctx, r, idx):
 
 def run_shard(ctx):
     conf = TIERS[ctx.tier]
-    tmpdir = tempfile.mkdtemp(prefix="vf-c14-")
+    tmpdir = scratch_dir(ctx, "vf-c14-")
     try:
         # command-line children first (they need wall-clock time, not CPU)
         rng = ctx.rng("sigint")
